@@ -28,7 +28,7 @@
    side only. *)
 From Coq Require Import List ZArith Bool.
 From BV Require Import Engine.RE Engine.REInst Engine.DocMon Proofs.RE_Docs Proofs.RE_DocsCor Proofs.RE_Exit Proofs.RE_ExitE2E.
-From BV Require Proofs.RE_Inv.
+From BV Require Proofs.RE_Inv Proofs.RE_ExitCause.
 Import ListNotations.
 
 (* (1) success for normal completion and RequestStop; abort for FailedPause, RequestAbort, a
@@ -273,6 +273,32 @@ Theorem C02_reason_provenance :
 Proof. exact reason_provenance. Qed.
 Print Assumptions C02_reason_provenance.
 
+(* (9) from the accepted request to the decision (Proofs/RE_ExitCause.v): a stop / abort / halt request
+   accepted while `_run` is in its loop leaves the task cancelled in state stopping / aborting / halting
+   with the interruption mark set; if every frame on the plan stack lets the substituted exception
+   propagate and no failed status is pending, the next task step decides exactly that exception - so,
+   by (8): stop -> success, abort / halt -> abort, and RunEngineInterrupted for the caller *)
+Theorem C02_request_lands :
+  forall (P : Type) (presume : P -> input -> outcome P) (plan_of : nat -> P)
+         (D : Type) (dev : D -> nat -> devmeth -> D * devres) (s : st P D) e x s' o,
+    RE_ExitCause.req_state e = Some x -> state P D s = Running -> RE_ExitCause.in_loop (pc P D s) = true ->
+    step P presume plan_of D dev s e = (s', o) ->
+    state P D s' = x /\ must_cancel P D s' = true /\ pc P D s' = pc P D s /\ plans P D s' = plans P D s /\
+    resps P D s' = resps P D s /\ stashed P D s' = stashed P D s /\ exc_slot P D s' = exc_slot P D s /\
+    interrupted P D s' = true.
+Proof. exact RE_ExitCause.request_lands. Qed.
+Print Assumptions C02_request_lands.
+
+Theorem C02_request_decides :
+  forall (P : Type) (presume : P -> input -> outcome P) (plan_of : nat -> P)
+         (D : Type) (dev : D -> nat -> devmeth -> D * devres) (s : st P D) e,
+    RE_Inv.Inv P D True s -> RE_ExitCause.in_loop (pc P D s) = true -> must_cancel P D s = true ->
+    RE_ExitCause.cancel_exn (state P D s) = Some e -> stashed P D s = None -> exc_slot P D s = None ->
+    Forall (RE_ExitCause.propagates P presume e) (plans P D s) ->
+    exists s1 os1, RE_Inv.visited P presume plan_of D dev s (s1, CExit (XExn e), os1) /\ state P D s1 = state P D s.
+Proof. exact RE_ExitCause.request_decides. Qed.
+Print Assumptions C02_request_decides.
+
 (* The earlier end-to-end reading (kept for the record): "a RunStop that is not 'success' means the
    engine was interrupted or the task raised".  It is FALSE: the exception class decides, whoever
    raised it.  A plan that raises RequestAbort itself gets 'abort' and a normal return. *)
@@ -399,4 +425,21 @@ Proof.
   split; [reflexivity|].
   split; [eexists; apply decision_of_visited; vm_compute; reflexivity|].
   repeat split; vm_compute; reflexivity.
+Qed.
+
+(* non-vacuity of (9) on the recorded abort: after the abort request the engine is aborting, the task
+   cancelled inside `read`, nothing stashed or pending, and the one frame on the stack (the recorded plan)
+   lets RequestAbort propagate *)
+Example C02_request_decides_nonvacuous :
+  let s := pre_state exa_tapes exa_ledger exa_paus exa_stag exa_rec (firstn 9 exa_evs) in
+  nth_error exa_evs 8 = Some (EvReqAbort (RsGiven 1)) /\
+  RE_ExitCause.in_loop (pc TP nat s) = true /\ must_cancel TP nat s = true /\
+  RE_ExitCause.cancel_exn (state TP nat s) = Some ERequestAbort /\ stashed TP nat s = None /\ exc_slot TP nat s = None /\
+  Forall (RE_ExitCause.propagates TP (t_resume exa_tapes) ERequestAbort) (plans TP nat s) /\ plans TP nat s <> [].
+Proof.
+  cbv zeta. split; [reflexivity|]. split; [vm_compute; reflexivity|]. split; [vm_compute; reflexivity|].
+  split; [vm_compute; reflexivity|]. split; [vm_compute; reflexivity|]. split; [vm_compute; reflexivity|].
+  assert (E : plans TP nat (pre_state exa_tapes exa_ledger exa_paus exa_stag exa_rec (firstn 9 exa_evs)) = [FUser 0 (0, 4) true])
+    by (vm_compute; reflexivity).
+  rewrite E. split; [|discriminate]. constructor; [vm_compute; reflexivity | constructor].
 Qed.
